@@ -132,6 +132,18 @@ def run(ctx: Ctx):
         u.register_tree(s)
         after = u.project(extras=True)
         add({"kind": "op_without_regions", "before": before, "after": after, "src": ["op", u.op(a)], "cpy": ["op", u.op(s)]}, what="Operation.clone_without_regions")
+        # 3b. a SEQUENCE of shallow clones: first a defining op, then one of its users (state must not leak between calls)
+        pairs = [(d, use.operation) for d in a.walk() for r in d.results for use in r.uses if use.operation is not d]
+        if pairs:
+            d, usr = rng.choice(pairs)
+            dc = d.clone_without_regions()
+            u.register_tree(dc)
+            before = u.project(extras=True)
+            uc = usr.clone_without_regions()
+            u.register_tree(uc)
+            after = u.project(extras=True)
+            add({"kind": "op_without_regions", "before": before, "after": after, "src": ["op", u.op(usr)], "cpy": ["op", u.op(uc)]},
+                what="Operation.clone_without_regions of a user after cloning its operand's definer")
         # 4. an inner op that uses values of the enclosing tree (external to it)
         inner = [o for o in a.walk() if o is not a]
         if inner:
